@@ -128,6 +128,8 @@ def _mstr(m):
 
 
 _NEWAXIS = {"np.newaxis", "numpy.newaxis", "None"}
+_IDENTITY_CALLS = {"np.array", "numpy.array", "np.asarray", "numpy.asarray", "float", "np.copy", "numpy.copy",
+                   "np.asfarray", "np.float64"}
 
 
 def _strip_broadcast(e):
@@ -191,6 +193,8 @@ class Normaliser(object):
                 if cv is not None:
                     return self.poly(e.left).power(cv)
                 return Poly.atom("(%s)**(%s)" % (self.poly(e.left).canon(), ex.canon()))
+        if isinstance(e, ast.Call) and ast.unparse(e.func) in _IDENTITY_CALLS and e.args:
+            return self.poly(e.args[0])  # coercions do not change the value
         return Poly.atom(self.opaque(e))
 
     def opaque(self, e):
@@ -219,6 +223,12 @@ class Normaliser(object):
     def arg(self, a):
         if isinstance(a, (ast.BinOp, ast.UnaryOp, ast.Name, ast.Constant)):
             p = self.poly(a)
+            if p.is_monomial():
+                (m, c), = p.t.items()
+                if c == 1 and len(m) == 1 and m[0][1] == 1:
+                    return m[0][0]
+                if m == ():
+                    return str(c)
             return p.canon()
         return self.opaque(a)
 
@@ -231,7 +241,7 @@ class Normaliser(object):
         return self.arg(s)
 
 
-def straightline_env(stmts, norm=None, stop_at=None):
+def straightline_env(stmts, norm=None, stop_at=None, exclude=()):
     """Inline environment from single-assignment `name = expr` statements of a block (in order)."""
     norm = norm or Normaliser()
     counts = {}
@@ -239,10 +249,21 @@ def straightline_env(stmts, norm=None, stop_at=None):
         for n in ast.walk(st):
             if isinstance(n, ast.Name) and isinstance(n.ctx, ast.Store):
                 counts[n.id] = counts.get(n.id, 0) + 1
-    for st in stmts:
-        if st is stop_at:
-            break
-        if isinstance(st, ast.Assign) and len(st.targets) == 1 and isinstance(st.targets[0], ast.Name) and \
-                counts.get(st.targets[0].id) == 1:
-            norm.env[st.targets[0].id] = norm.poly(st.value)
+    def visit(block):
+        for st in block:
+            if st is stop_at:
+                return False
+            if isinstance(st, ast.Assign) and len(st.targets) == 1 and isinstance(st.targets[0], ast.Name) and \
+                    counts.get(st.targets[0].id) == 1 and st.targets[0].id not in exclude:
+                norm.env[st.targets[0].id] = norm.poly(st.value)
+            for fld in ("body", "orelse", "finalbody"):
+                sub = getattr(st, fld, None)
+                if isinstance(sub, list) and sub and isinstance(sub[0], ast.stmt) and not isinstance(st, (ast.FunctionDef, ast.ClassDef)):
+                    if visit(sub) is False:
+                        return False
+            for h in getattr(st, "handlers", []) or []:
+                if visit(h.body) is False:
+                    return False
+        return True
+    visit(stmts)
     return norm
